@@ -61,11 +61,26 @@ func (bucket *Bucket) Close(_ context.Context) {
 	}
 	verifPoint("close.mid")
 
-	unregisterBucket(bucket)
+	if unregisterBucket(bucket) {
+		// That was the last handle of a persistent bucket: shut the store down.
+		bucket.shutDownStore()
+	}
+}
+
+// shutDownStore stops the expiry timer and the feeds and closes the database. It holds postMutex, so it
+// cannot interleave with a write posting its event or with a feed between its backfill and its registration.
+func (bucket *Bucket) shutDownStore() {
+	bucket.expManager.stop() // before taking the bucket mutex: a running expiration needs that mutex
+	bucket.postMutex.Lock()
+	defer bucket.postMutex.Unlock()
+	bucket.mutex.Lock()
+	defer bucket.mutex.Unlock()
+	bucket._closeSqliteDB()
 }
 
 // _closeSqliteDB closes the underlying sqlite database and shuts down dcpFeeds. Must have a lock to call this function.
 func (bucket *Bucket) _closeSqliteDB() {
+	bucket.storeClosed.Store(true)
 	bucket.expManager.stop()
 	for _, c := range bucket.collections {
 		c.close()
@@ -88,6 +103,8 @@ func (bucket *Bucket) CloseAndDelete(ctx context.Context) (err error) {
 	// Stop the expiry timer first, without holding the bucket mutex: a running expiration holds the
 	// expiry manager's mutex and needs the bucket mutex to delete the expired docs.
 	bucket.expManager.stop()
+	bucket.postMutex.Lock() // see shutDownStore
+	defer bucket.postMutex.Unlock()
 	bucket.mutex.Lock()
 	defer bucket.mutex.Unlock()
 	bucket.closed = true // so that a later Close() of this handle is a no-op
